@@ -378,9 +378,9 @@ Proof.
   { unfold pseudoLegalMoves, pseudoLegalMovesT. cbv zeta.
     apply (pawnBlock_app p Hwf'). left. apply (knightBlock_app p Hwf'). left. apply (castleMoves_app p). right. exact Hin. }
   destruct (pseudo_move_good p Hwf' m Hps) as (_ & Hok & _).
-  apply (castleMoves_spec p Hwf' m) in Hin.
-  destruct (castle_parse p m Hin) as (kside & HS).
-  pose proof (castle_moveFacts zk p m Hrev Hok kside HS) as MF.
+  pose proof (proj1 (castleMoves_spec p Hwf' m) Hin) as Hin'.
+  destruct (castle_parse zk p m Hok Hin') as (kside & HS).
+  pose proof (castle_moveFacts p m Hok kside HS) as MF.
   apply (complete_given_raw zk EKZ p m incl Hrev MF Hinc).
   apply (raw_castle zk EKZ p m Hrev Hok kside HS).
 Qed.
